@@ -267,11 +267,32 @@ func runQuotaGuard(c *core.Ctx) {
 		rej, fwd = helperRej, helperFwd
 	} else {
 		for _, r := range classifyClientReturns(P, req, paramIdx(req, msg), 0) {
-			switch r.kind {
-			case "reject":
-				rej = r.ret
-			case "forward":
-				fwd = r.ret
+			// (a return that delegates to a private helper building the triple — `return m.rejectReq(msg, …)` —
+			// is classified inside the helper: the decision is where the handler returns it)
+			rets := []*ssa.Return{r.ret}
+			if r.ret.Parent() != req {
+				rets = nil
+				for _, rb := range an.ReturnBlocks(req) {
+					rr := an.LastInstr(rb).(*ssa.Return)
+					if ex, ok := an.ReturnValues(rr)[0].(*ssa.Extract); ok {
+						if call, ok := ex.Tuple.(*ssa.Call); ok && an.StaticCallee(&call.Call) == r.ret.Parent() {
+							rets = append(rets, rr)
+						}
+					}
+				}
+			}
+			for _, ret := range rets {
+				// a REQ that fails its own Valid() turned away at the door: not a quota decision (and not a
+				// message the property speaks about)
+				if r.kind == "reject" && invalidMsgGuarded(req, ret.Block(), msg) {
+					continue
+				}
+				switch r.kind {
+				case "reject":
+					rej = ret
+				case "forward":
+					fwd = ret
+				}
 			}
 		}
 	}
@@ -690,6 +711,12 @@ func runUniqPath(c *core.Ctx) {
 						if _, ok := ex.Tuple.(*ssa.TypeAssert); ok {
 							isEv = true
 						}
+					}
+				}
+				// (an EVENT message without an event has no id to remember: `ok && msg.Event != nil`)
+				for _, cd := range p.Conds() {
+					if nilEventCond(cd) {
+						isEv = false
 					}
 				}
 				if isEv && !p.Contains(add.Block()) {
